@@ -376,8 +376,12 @@ def r6_kernel_retry(ctx):
                         bound_ok = True
                 elif o.kind == "mutated":
                     continue
+    from ..cut import counter_loop_bound
+    cl = None if bound_ok else counter_loop_bound(b, T, h, blks)
     if bound_ok and bound[1] - bound[0] <= 128:
         out.append(holds("C02.R6", "openat2::resolve:bounded", t.where(), "retry loop iterates the constant range %s..%s" % bound))
+    elif cl is not None and cl[0] is not None and cl[0] <= 129:
+        out.append(holds("C02.R6", "openat2::resolve:bounded", t.where(), "retry loop is counted: %s" % cl[1]))
     else:
         out.append(violated("C02.R6", "openat2::resolve:bounded", t.where(), "EAGAIN retry loop has no constant bound"))
     # the loop's exhaustion exit reaches only an Err(SafetyViolation)
@@ -389,6 +393,8 @@ def r6_kernel_retry(ctx):
         r = result_edges(b, c)
         if r:
             none_exit.extend(r["err"])
+    if not none_exit and cl is not None:
+        none_exit = [e for e in cfg.succ.get(h, []) if e.dst not in blks]
     if none_exit:
         reach = cfg.edge_targets_reachable(none_exit)
         okret = any(s.kind == "assign" and s.lhs.local == 0 and s.rv["k"] == "agg" and s.rv.get("variant") == "Ok"
